@@ -98,3 +98,295 @@ fn c10_roundtrip_time_date() {
     kani::cover!(k % 8 == 0 && x % 1_000_000 != 0);
     kani::cover!(k % 8 == 7 && x < 0);
 }
+
+// ---------------------------------------------------------------------------------------
+// K2: total decoder. Arbitrary bytes -> Ok/Err, never a panic, and every Vec::with_capacity
+// request stays proportional to the input (allocation monitor stub).
+// ---------------------------------------------------------------------------------------
+
+/// Input length of the running K2 harness, read by the allocation monitor.
+static mut INPUT_LEN: usize = 0;
+
+/// Stub for `Vec::<T>::with_capacity`: asserts the request is O(|input|), then returns an empty Vec
+/// (pushes grow it as usual, so decoding semantics are unchanged).
+pub fn monitored_with_capacity<T>(capacity: usize) -> Vec<T> {
+    let bytes = (capacity as u128) * (core::mem::size_of::<T>() as u128);
+    let budget = unsafe { INPUT_LEN as u128 } * 128 + 256;
+    assert!(bytes <= budget, "C10: decoder requests an allocation that is not proportional to the input size");
+    Vec::new()
+}
+
+/// One decode of an arbitrary buffer of CONCRETE length `N` whose first byte (the value tag) is the
+/// constant `T`.
+/// DESIGN (probed twice): (1) with a symbolic tag byte the 31-arm match merges 31 differently tagged
+/// `Value`s and CBMC exhausts 16 GB; (2) with a symbolic slice length the very first `read_u8()?` merges
+/// Ok(tag)/Err(truncated) and CBMC no longer folds the tag constant, with the same result. Tag byte and
+/// length are therefore concrete per call site; the quantification over (tag, length) is a symbolic
+/// selector over call sites, the remaining N-1 bytes are symbolic.
+fn decode_one<const N: usize, const T: u8>() {
+    let mut buf: [u8; N] = kani::any();
+    buf[0] = T;
+    unsafe { INPUT_LEN = N; }
+    let r = decode_value_bytes(&buf);
+    match &r {
+        Ok((_, used)) => assert!(*used <= N && *used >= 1, "C10: decoder consumed more than the input"),
+        Err(_) => {}
+    }
+    if !(T >= 1 && T <= 31) { assert!(r.is_err(), "C10: unknown value tag accepted"); }
+    std::mem::forget(r);
+}
+
+/// lengths 1, 2, 3, 5, 9, 10 for one tag: tag only; exact / truncated / trailing byte for the 1-, 2-, 4- and
+/// 8-byte payloads (each decode costs ~25 s of symbolic execution because every step moves a 96-byte `Value`
+/// union; probed: all ten lengths = 480 s per tag).
+fn decode_tag_all_lengths<const T: u8>(sel: u8) {
+    match sel {
+        1 => decode_one::<1, T>(), 2 => decode_one::<2, T>(), 3 => decode_one::<3, T>(),
+        5 => decode_one::<5, T>(), 9 => decode_one::<9, T>(), _ => decode_one::<10, T>(),
+    }
+}
+
+macro_rules! decode_tags {
+    ($name:ident, [$($t:expr),+]) => {
+        #[kani::proof]
+        #[kani::stub(std::vec::Vec::with_capacity, monitored_with_capacity)]
+        fn $name() {
+            let tsel: u8 = kani::any();
+            let lsel: u8 = kani::any();
+            let mut i: u8 = 0;
+            $( if tsel == i { decode_tag_all_lengths::<$t>(lsel); } i += 1; )+
+            kani::cover!(tsel == 0 && lsel == 1);
+            kani::cover!(tsel == 0 && lsel == 10);
+        }
+    };
+}
+
+
+// @verif prop=C10 kernel=K2 tiers=thorough timeout=1800 unwind=1 stubbing=yes mem=12
+// @verif what=decode_value total on arbitrary bytes with tag byte 1 (bool): Ok/Err, no panic, no out-of-bounds read, consumed <= input, unknown tags rejected
+// @verif fns=retain::{decode_value,RetainReader::*}
+// @verif bound=all byte strings of length 1, 2, 3, 5, 9 or 10 whose first byte is 1 (tag byte and length concrete per call site, remaining bytes symbolic)
+// @verif stub=alloc::vec::Vec::<T>::with_capacity -> allocation monitor (asserts cap*size_of::<T>() <= 128*|input|+256, returns Vec::new())
+decode_tags!(c10_decode_total_bool, [1]);
+
+// @verif prop=C10 kernel=K2 tiers=thorough timeout=1800 unwind=1 stubbing=yes mem=12
+// @verif what=decode_value total on arbitrary bytes with tag byte 2 (sint): Ok/Err, no panic, no out-of-bounds read, consumed <= input, unknown tags rejected
+// @verif fns=retain::{decode_value,RetainReader::*}
+// @verif bound=all byte strings of length 1, 2, 3, 5, 9 or 10 whose first byte is 2 (tag byte and length concrete per call site, remaining bytes symbolic)
+// @verif stub=alloc::vec::Vec::<T>::with_capacity -> allocation monitor (asserts cap*size_of::<T>() <= 128*|input|+256, returns Vec::new())
+decode_tags!(c10_decode_total_sint, [2]);
+
+// @verif prop=C10 kernel=K2 tiers=thorough timeout=1800 unwind=1 stubbing=yes mem=12
+// @verif what=decode_value total on arbitrary bytes with tag byte 3 (int): Ok/Err, no panic, no out-of-bounds read, consumed <= input, unknown tags rejected
+// @verif fns=retain::{decode_value,RetainReader::*}
+// @verif bound=all byte strings of length 1, 2, 3, 5, 9 or 10 whose first byte is 3 (tag byte and length concrete per call site, remaining bytes symbolic)
+// @verif stub=alloc::vec::Vec::<T>::with_capacity -> allocation monitor (asserts cap*size_of::<T>() <= 128*|input|+256, returns Vec::new())
+decode_tags!(c10_decode_total_int, [3]);
+
+// @verif prop=C10 kernel=K2 tiers=thorough timeout=1800 unwind=1 stubbing=yes mem=12
+// @verif what=decode_value total on arbitrary bytes with tag byte 4 (dint): Ok/Err, no panic, no out-of-bounds read, consumed <= input, unknown tags rejected
+// @verif fns=retain::{decode_value,RetainReader::*}
+// @verif bound=all byte strings of length 1, 2, 3, 5, 9 or 10 whose first byte is 4 (tag byte and length concrete per call site, remaining bytes symbolic)
+// @verif stub=alloc::vec::Vec::<T>::with_capacity -> allocation monitor (asserts cap*size_of::<T>() <= 128*|input|+256, returns Vec::new())
+decode_tags!(c10_decode_total_dint, [4]);
+
+// @verif prop=C10 kernel=K2 tiers=quick,thorough timeout=1800 unwind=1 stubbing=yes mem=12
+// @verif what=decode_value total on arbitrary bytes with tag byte 5 (lint): Ok/Err, no panic, no out-of-bounds read, consumed <= input, unknown tags rejected
+// @verif fns=retain::{decode_value,RetainReader::*}
+// @verif bound=all byte strings of length 1, 2, 3, 5, 9 or 10 whose first byte is 5 (tag byte and length concrete per call site, remaining bytes symbolic)
+// @verif stub=alloc::vec::Vec::<T>::with_capacity -> allocation monitor (asserts cap*size_of::<T>() <= 128*|input|+256, returns Vec::new())
+decode_tags!(c10_decode_total_lint, [5]);
+
+// @verif prop=C10 kernel=K2 tiers=thorough timeout=1800 unwind=1 stubbing=yes mem=12
+// @verif what=decode_value total on arbitrary bytes with tag byte 6 (usint): Ok/Err, no panic, no out-of-bounds read, consumed <= input, unknown tags rejected
+// @verif fns=retain::{decode_value,RetainReader::*}
+// @verif bound=all byte strings of length 1, 2, 3, 5, 9 or 10 whose first byte is 6 (tag byte and length concrete per call site, remaining bytes symbolic)
+// @verif stub=alloc::vec::Vec::<T>::with_capacity -> allocation monitor (asserts cap*size_of::<T>() <= 128*|input|+256, returns Vec::new())
+decode_tags!(c10_decode_total_usint, [6]);
+
+// @verif prop=C10 kernel=K2 tiers=thorough timeout=1800 unwind=1 stubbing=yes mem=12
+// @verif what=decode_value total on arbitrary bytes with tag byte 7 (uint): Ok/Err, no panic, no out-of-bounds read, consumed <= input, unknown tags rejected
+// @verif fns=retain::{decode_value,RetainReader::*}
+// @verif bound=all byte strings of length 1, 2, 3, 5, 9 or 10 whose first byte is 7 (tag byte and length concrete per call site, remaining bytes symbolic)
+// @verif stub=alloc::vec::Vec::<T>::with_capacity -> allocation monitor (asserts cap*size_of::<T>() <= 128*|input|+256, returns Vec::new())
+decode_tags!(c10_decode_total_uint, [7]);
+
+// @verif prop=C10 kernel=K2 tiers=thorough timeout=1800 unwind=1 stubbing=yes mem=12
+// @verif what=decode_value total on arbitrary bytes with tag byte 8 (udint): Ok/Err, no panic, no out-of-bounds read, consumed <= input, unknown tags rejected
+// @verif fns=retain::{decode_value,RetainReader::*}
+// @verif bound=all byte strings of length 1, 2, 3, 5, 9 or 10 whose first byte is 8 (tag byte and length concrete per call site, remaining bytes symbolic)
+// @verif stub=alloc::vec::Vec::<T>::with_capacity -> allocation monitor (asserts cap*size_of::<T>() <= 128*|input|+256, returns Vec::new())
+decode_tags!(c10_decode_total_udint, [8]);
+
+// @verif prop=C10 kernel=K2 tiers=thorough timeout=1800 unwind=1 stubbing=yes mem=12
+// @verif what=decode_value total on arbitrary bytes with tag byte 9 (ulint): Ok/Err, no panic, no out-of-bounds read, consumed <= input, unknown tags rejected
+// @verif fns=retain::{decode_value,RetainReader::*}
+// @verif bound=all byte strings of length 1, 2, 3, 5, 9 or 10 whose first byte is 9 (tag byte and length concrete per call site, remaining bytes symbolic)
+// @verif stub=alloc::vec::Vec::<T>::with_capacity -> allocation monitor (asserts cap*size_of::<T>() <= 128*|input|+256, returns Vec::new())
+decode_tags!(c10_decode_total_ulint, [9]);
+
+// @verif prop=C10 kernel=K2 tiers=quick,thorough timeout=1800 unwind=1 stubbing=yes mem=12
+// @verif what=decode_value total on arbitrary bytes with tag byte 10 (real): Ok/Err, no panic, no out-of-bounds read, consumed <= input, unknown tags rejected
+// @verif fns=retain::{decode_value,RetainReader::*}
+// @verif bound=all byte strings of length 1, 2, 3, 5, 9 or 10 whose first byte is 10 (tag byte and length concrete per call site, remaining bytes symbolic)
+// @verif stub=alloc::vec::Vec::<T>::with_capacity -> allocation monitor (asserts cap*size_of::<T>() <= 128*|input|+256, returns Vec::new())
+decode_tags!(c10_decode_total_real, [10]);
+
+// @verif prop=C10 kernel=K2 tiers=thorough timeout=1800 unwind=1 stubbing=yes mem=12
+// @verif what=decode_value total on arbitrary bytes with tag byte 11 (lreal): Ok/Err, no panic, no out-of-bounds read, consumed <= input, unknown tags rejected
+// @verif fns=retain::{decode_value,RetainReader::*}
+// @verif bound=all byte strings of length 1, 2, 3, 5, 9 or 10 whose first byte is 11 (tag byte and length concrete per call site, remaining bytes symbolic)
+// @verif stub=alloc::vec::Vec::<T>::with_capacity -> allocation monitor (asserts cap*size_of::<T>() <= 128*|input|+256, returns Vec::new())
+decode_tags!(c10_decode_total_lreal, [11]);
+
+// @verif prop=C10 kernel=K2 tiers=thorough timeout=1800 unwind=1 stubbing=yes mem=12
+// @verif what=decode_value total on arbitrary bytes with tag byte 12 (byte): Ok/Err, no panic, no out-of-bounds read, consumed <= input, unknown tags rejected
+// @verif fns=retain::{decode_value,RetainReader::*}
+// @verif bound=all byte strings of length 1, 2, 3, 5, 9 or 10 whose first byte is 12 (tag byte and length concrete per call site, remaining bytes symbolic)
+// @verif stub=alloc::vec::Vec::<T>::with_capacity -> allocation monitor (asserts cap*size_of::<T>() <= 128*|input|+256, returns Vec::new())
+decode_tags!(c10_decode_total_byte, [12]);
+
+// @verif prop=C10 kernel=K2 tiers=thorough timeout=1800 unwind=1 stubbing=yes mem=12
+// @verif what=decode_value total on arbitrary bytes with tag byte 13 (word): Ok/Err, no panic, no out-of-bounds read, consumed <= input, unknown tags rejected
+// @verif fns=retain::{decode_value,RetainReader::*}
+// @verif bound=all byte strings of length 1, 2, 3, 5, 9 or 10 whose first byte is 13 (tag byte and length concrete per call site, remaining bytes symbolic)
+// @verif stub=alloc::vec::Vec::<T>::with_capacity -> allocation monitor (asserts cap*size_of::<T>() <= 128*|input|+256, returns Vec::new())
+decode_tags!(c10_decode_total_word, [13]);
+
+// @verif prop=C10 kernel=K2 tiers=thorough timeout=1800 unwind=1 stubbing=yes mem=12
+// @verif what=decode_value total on arbitrary bytes with tag byte 14 (dword): Ok/Err, no panic, no out-of-bounds read, consumed <= input, unknown tags rejected
+// @verif fns=retain::{decode_value,RetainReader::*}
+// @verif bound=all byte strings of length 1, 2, 3, 5, 9 or 10 whose first byte is 14 (tag byte and length concrete per call site, remaining bytes symbolic)
+// @verif stub=alloc::vec::Vec::<T>::with_capacity -> allocation monitor (asserts cap*size_of::<T>() <= 128*|input|+256, returns Vec::new())
+decode_tags!(c10_decode_total_dword, [14]);
+
+// @verif prop=C10 kernel=K2 tiers=thorough timeout=1800 unwind=1 stubbing=yes mem=12
+// @verif what=decode_value total on arbitrary bytes with tag byte 15 (lword): Ok/Err, no panic, no out-of-bounds read, consumed <= input, unknown tags rejected
+// @verif fns=retain::{decode_value,RetainReader::*}
+// @verif bound=all byte strings of length 1, 2, 3, 5, 9 or 10 whose first byte is 15 (tag byte and length concrete per call site, remaining bytes symbolic)
+// @verif stub=alloc::vec::Vec::<T>::with_capacity -> allocation monitor (asserts cap*size_of::<T>() <= 128*|input|+256, returns Vec::new())
+decode_tags!(c10_decode_total_lword, [15]);
+
+// @verif prop=C10 kernel=K2 tiers=quick,thorough timeout=1800 unwind=1 stubbing=yes mem=12
+// @verif what=decode_value total on arbitrary bytes with tag byte 16 (time): Ok/Err, no panic, no out-of-bounds read, consumed <= input, unknown tags rejected
+// @verif fns=retain::{decode_value,RetainReader::*}
+// @verif bound=all byte strings of length 1, 2, 3, 5, 9 or 10 whose first byte is 16 (tag byte and length concrete per call site, remaining bytes symbolic)
+// @verif stub=alloc::vec::Vec::<T>::with_capacity -> allocation monitor (asserts cap*size_of::<T>() <= 128*|input|+256, returns Vec::new())
+decode_tags!(c10_decode_total_time, [16]);
+
+// @verif prop=C10 kernel=K2 tiers=thorough timeout=1800 unwind=1 stubbing=yes mem=12
+// @verif what=decode_value total on arbitrary bytes with tag byte 17 (ltime): Ok/Err, no panic, no out-of-bounds read, consumed <= input, unknown tags rejected
+// @verif fns=retain::{decode_value,RetainReader::*}
+// @verif bound=all byte strings of length 1, 2, 3, 5, 9 or 10 whose first byte is 17 (tag byte and length concrete per call site, remaining bytes symbolic)
+// @verif stub=alloc::vec::Vec::<T>::with_capacity -> allocation monitor (asserts cap*size_of::<T>() <= 128*|input|+256, returns Vec::new())
+decode_tags!(c10_decode_total_ltime, [17]);
+
+// @verif prop=C10 kernel=K2 tiers=thorough timeout=1800 unwind=1 stubbing=yes mem=12
+// @verif what=decode_value total on arbitrary bytes with tag byte 18 (date): Ok/Err, no panic, no out-of-bounds read, consumed <= input, unknown tags rejected
+// @verif fns=retain::{decode_value,RetainReader::*}
+// @verif bound=all byte strings of length 1, 2, 3, 5, 9 or 10 whose first byte is 18 (tag byte and length concrete per call site, remaining bytes symbolic)
+// @verif stub=alloc::vec::Vec::<T>::with_capacity -> allocation monitor (asserts cap*size_of::<T>() <= 128*|input|+256, returns Vec::new())
+decode_tags!(c10_decode_total_date, [18]);
+
+// @verif prop=C10 kernel=K2 tiers=thorough timeout=1800 unwind=1 stubbing=yes mem=12
+// @verif what=decode_value total on arbitrary bytes with tag byte 19 (ldate): Ok/Err, no panic, no out-of-bounds read, consumed <= input, unknown tags rejected
+// @verif fns=retain::{decode_value,RetainReader::*}
+// @verif bound=all byte strings of length 1, 2, 3, 5, 9 or 10 whose first byte is 19 (tag byte and length concrete per call site, remaining bytes symbolic)
+// @verif stub=alloc::vec::Vec::<T>::with_capacity -> allocation monitor (asserts cap*size_of::<T>() <= 128*|input|+256, returns Vec::new())
+decode_tags!(c10_decode_total_ldate, [19]);
+
+// @verif prop=C10 kernel=K2 tiers=thorough timeout=1800 unwind=1 stubbing=yes mem=12
+// @verif what=decode_value total on arbitrary bytes with tag byte 20 (tod): Ok/Err, no panic, no out-of-bounds read, consumed <= input, unknown tags rejected
+// @verif fns=retain::{decode_value,RetainReader::*}
+// @verif bound=all byte strings of length 1, 2, 3, 5, 9 or 10 whose first byte is 20 (tag byte and length concrete per call site, remaining bytes symbolic)
+// @verif stub=alloc::vec::Vec::<T>::with_capacity -> allocation monitor (asserts cap*size_of::<T>() <= 128*|input|+256, returns Vec::new())
+decode_tags!(c10_decode_total_tod, [20]);
+
+// @verif prop=C10 kernel=K2 tiers=thorough timeout=1800 unwind=1 stubbing=yes mem=12
+// @verif what=decode_value total on arbitrary bytes with tag byte 21 (ltod): Ok/Err, no panic, no out-of-bounds read, consumed <= input, unknown tags rejected
+// @verif fns=retain::{decode_value,RetainReader::*}
+// @verif bound=all byte strings of length 1, 2, 3, 5, 9 or 10 whose first byte is 21 (tag byte and length concrete per call site, remaining bytes symbolic)
+// @verif stub=alloc::vec::Vec::<T>::with_capacity -> allocation monitor (asserts cap*size_of::<T>() <= 128*|input|+256, returns Vec::new())
+decode_tags!(c10_decode_total_ltod, [21]);
+
+// @verif prop=C10 kernel=K2 tiers=thorough timeout=1800 unwind=1 stubbing=yes mem=12
+// @verif what=decode_value total on arbitrary bytes with tag byte 22 (dt): Ok/Err, no panic, no out-of-bounds read, consumed <= input, unknown tags rejected
+// @verif fns=retain::{decode_value,RetainReader::*}
+// @verif bound=all byte strings of length 1, 2, 3, 5, 9 or 10 whose first byte is 22 (tag byte and length concrete per call site, remaining bytes symbolic)
+// @verif stub=alloc::vec::Vec::<T>::with_capacity -> allocation monitor (asserts cap*size_of::<T>() <= 128*|input|+256, returns Vec::new())
+decode_tags!(c10_decode_total_dt, [22]);
+
+// @verif prop=C10 kernel=K2 tiers=thorough timeout=1800 unwind=1 stubbing=yes mem=12
+// @verif what=decode_value total on arbitrary bytes with tag byte 23 (ldt): Ok/Err, no panic, no out-of-bounds read, consumed <= input, unknown tags rejected
+// @verif fns=retain::{decode_value,RetainReader::*}
+// @verif bound=all byte strings of length 1, 2, 3, 5, 9 or 10 whose first byte is 23 (tag byte and length concrete per call site, remaining bytes symbolic)
+// @verif stub=alloc::vec::Vec::<T>::with_capacity -> allocation monitor (asserts cap*size_of::<T>() <= 128*|input|+256, returns Vec::new())
+decode_tags!(c10_decode_total_ldt, [23]);
+
+// @verif prop=C10 kernel=K2 tiers=thorough timeout=1800 unwind=1 stubbing=yes mem=12
+// @verif what=decode_value total on arbitrary bytes with tag byte 26 (char): Ok/Err, no panic, no out-of-bounds read, consumed <= input, unknown tags rejected
+// @verif fns=retain::{decode_value,RetainReader::*}
+// @verif bound=all byte strings of length 1, 2, 3, 5, 9 or 10 whose first byte is 26 (tag byte and length concrete per call site, remaining bytes symbolic)
+// @verif stub=alloc::vec::Vec::<T>::with_capacity -> allocation monitor (asserts cap*size_of::<T>() <= 128*|input|+256, returns Vec::new())
+decode_tags!(c10_decode_total_char, [26]);
+
+// @verif prop=C10 kernel=K2 tiers=thorough timeout=1800 unwind=1 stubbing=yes mem=12
+// @verif what=decode_value total on arbitrary bytes with tag byte 27 (wchar): Ok/Err, no panic, no out-of-bounds read, consumed <= input, unknown tags rejected
+// @verif fns=retain::{decode_value,RetainReader::*}
+// @verif bound=all byte strings of length 1, 2, 3, 5, 9 or 10 whose first byte is 27 (tag byte and length concrete per call site, remaining bytes symbolic)
+// @verif stub=alloc::vec::Vec::<T>::with_capacity -> allocation monitor (asserts cap*size_of::<T>() <= 128*|input|+256, returns Vec::new())
+decode_tags!(c10_decode_total_wchar, [27]);
+
+// @verif prop=C10 kernel=K2 tiers=quick,thorough timeout=1800 unwind=1 stubbing=yes mem=12
+// @verif what=decode_value total on arbitrary bytes with tag byte 31 (null): Ok/Err, no panic, no out-of-bounds read, consumed <= input, unknown tags rejected
+// @verif fns=retain::{decode_value,RetainReader::*}
+// @verif bound=all byte strings of length 1, 2, 3, 5, 9 or 10 whose first byte is 31 (tag byte and length concrete per call site, remaining bytes symbolic)
+// @verif stub=alloc::vec::Vec::<T>::with_capacity -> allocation monitor (asserts cap*size_of::<T>() <= 128*|input|+256, returns Vec::new())
+decode_tags!(c10_decode_total_null, [31]);
+
+// @verif prop=C10 kernel=K2 tiers=thorough timeout=1800 unwind=1 stubbing=yes mem=12
+// @verif what=decode_value total on arbitrary bytes with tag byte 0 (unknown0): Ok/Err, no panic, no out-of-bounds read, consumed <= input, unknown tags rejected
+// @verif fns=retain::{decode_value,RetainReader::*}
+// @verif bound=all byte strings of length 1, 2, 3, 5, 9 or 10 whose first byte is 0 (tag byte and length concrete per call site, remaining bytes symbolic)
+// @verif stub=alloc::vec::Vec::<T>::with_capacity -> allocation monitor (asserts cap*size_of::<T>() <= 128*|input|+256, returns Vec::new())
+decode_tags!(c10_decode_total_unknown0, [0]);
+
+// @verif prop=C10 kernel=K2 tiers=thorough timeout=1800 unwind=1 stubbing=yes mem=12
+// @verif what=decode_value total on arbitrary bytes with tag byte 32 (unknown32): Ok/Err, no panic, no out-of-bounds read, consumed <= input, unknown tags rejected
+// @verif fns=retain::{decode_value,RetainReader::*}
+// @verif bound=all byte strings of length 1, 2, 3, 5, 9 or 10 whose first byte is 32 (tag byte and length concrete per call site, remaining bytes symbolic)
+// @verif stub=alloc::vec::Vec::<T>::with_capacity -> allocation monitor (asserts cap*size_of::<T>() <= 128*|input|+256, returns Vec::new())
+decode_tags!(c10_decode_total_unknown32, [32]);
+
+// @verif prop=C10 kernel=K2 tiers=quick,thorough timeout=1800 unwind=1 stubbing=yes mem=12
+// @verif what=decode_value total on arbitrary bytes with tag byte 255 (unknown255): Ok/Err, no panic, no out-of-bounds read, consumed <= input, unknown tags rejected
+// @verif fns=retain::{decode_value,RetainReader::*}
+// @verif bound=all byte strings of length 1, 2, 3, 5, 9 or 10 whose first byte is 255 (tag byte and length concrete per call site, remaining bytes symbolic)
+// @verif stub=alloc::vec::Vec::<T>::with_capacity -> allocation monitor (asserts cap*size_of::<T>() <= 128*|input|+256, returns Vec::new())
+decode_tags!(c10_decode_total_unknown255, [255]);
+
+/// ARRAY header [28][len u32][dims u32] followed by N-9 symbolic bytes; if N >= 10 the first element's tag
+/// byte (offset 9, only reached when dims = 0) is the constant `E`.
+fn decode_array_one<const N: usize, const E: u8>() {
+    let mut buf: [u8; N] = kani::any();
+    buf[0] = 28;
+    if N >= 10 { buf[9] = E; }
+    unsafe { INPUT_LEN = N; }
+    let r = decode_value_bytes(&buf);
+    if let Ok((_, used)) = &r { assert!(*used <= N, "C10: decoder consumed more than the input"); }
+    kani::cover!(r.is_err());
+    std::mem::forget(r);
+}
+
+// @verif prop=C10 kernel=K2 tiers=quick,thorough timeout=1800 unwind=1 stubbing=yes mem=12 loops=decode_value:3
+// @verif what=decode_value on ARRAY headers with arbitrary element count and dimension count (both full u32): Ok/Err, no panic, and the two Vec::with_capacity requests stay proportional to the input
+// @verif fns=retain::{decode_value,RetainReader::*}
+// @verif bound=the 9-byte strings [28][len u32][dims u32] with len and dims arbitrary u32 (both allocation sites are reached; the element loop ends at the first truncated read)
+// @verif stub=alloc::vec::Vec::<T>::with_capacity -> allocation monitor (asserts cap*size_of::<T>() <= 128*|input|+256, returns Vec::new())
+// @verif outside=array inputs that contain element bytes (probed: one element exhausts 12 GB)
+#[kani::proof]
+#[kani::stub(std::vec::Vec::with_capacity, monitored_with_capacity)]
+fn c10_decode_total_array() {
+    // probed: adding the N = 10/11 variants (one element) exhausts 12 GB; they are outside the claim
+    decode_array_one::<9, 0>();
+}
